@@ -329,7 +329,7 @@ type ghandler struct {
 }
 
 var (
-	okModes   = []string{"ok", "ok", "fail", "faile", "fails", "fails", "failm", "failn", "failf", "panic", "panice", "panicr", "panicp", "panicn", "panics"}
+	okModes   = []string{"ok", "ok", "fail", "faile", "fails", "fails", "failm", "failn", "failf", "failk", "failk", "failk", "failk", "panic", "panice", "panicr", "panicp", "panicn", "panics"}
 	logAPIs   = []string{"Log", "LogContext", "LogTo", "LogContextTo", "LogWithLevel", "LogAttrs", "LogAttrsContext", "LogAttrsTo", "LogAttrsContextTo", "LogAttrsWithLevel"}
 	bigMsgLen = []int{64, 65, 4096, 65536, 65537}
 )
@@ -440,6 +440,9 @@ func (g *gen) pickMulti(minSinks int) (ghandler, bool) {
 }
 
 func (g *gen) setMode(s int, m string) {
+	if m == "failk" { // an error value of some dynamic kind
+		m = "failk:" + hx.Pick(g.r, errKindNames)
+	}
 	if g.buffered[s] > 0 && strings.HasPrefix(m, "panic") {
 		m = "fail" // a panic in the delivery goroutine would end the process
 	}
@@ -631,7 +634,12 @@ func (g *gen) logx(h ghandler, level int) {
 	if !strings.HasSuffix(api, "WithLevel") {
 		level = 8
 	}
+	ek, msg := hx.Pick(r, []string{"e", "e", "e", "p", "p", "n", "t", "k", "k", "k"}), hx.Pick(r, msgs)
+	if ek == "k" { // an error value of some dynamic kind; the message is what its Error() says
+		kind := hx.Pick(r, errKindNames)
+		ek, msg = "k:"+kind, errKindMsg[kind]
+	}
 	w := []string{"logx", api, hx.Pick(r, []string{"bg", "bg", "nil"}), hx.Pick(r, []string{"h", "h", "nil"}),
-		hx.Pick(r, []string{"e", "e", "e", "p", "p", "n", "t"}), h.name, strconv.Itoa(level), hexs(hx.Pick(r, msgs))}
+		ek, h.name, strconv.Itoa(level), hexs(msg)}
 	g.out(strings.TrimSpace(strings.Join(append(w, g.attrs(6, true)...), " ")))
 }
